@@ -28,6 +28,7 @@ import (
 	"path/filepath"
 	"regexp"
 	"sort"
+	"sync"
 	"strings"
 	"sync/atomic"
 	"testing"
@@ -415,13 +416,34 @@ func attempts(r *vf.Run) (tries, rounds int) {
 	return 1, r.Pick(2, 2)
 }
 
+// memo remembers the verdict of cases judged while shrinking: rapid minimises the raw bits of its
+// draws, so many shrink candidates decode to a case that was already judged (a child run each).
+var (
+	memoMu sync.Mutex
+	memo   = map[string]outcome{}
+)
+
 func checkWith(c Case, o *vf.Obs, r *vf.Run) error {
 	tries, rounds := attempts(r)
+	key, _ := json.Marshal(c)
 	var oc outcome
-	for i := 0; i < tries; i++ {
-		oc = runChild(c, rounds)
-		if oc.err != nil {
-			break
+	cached := false
+	if sawFailure.Load() && os.Getenv("VERIF_REPLAY") == "" {
+		memoMu.Lock()
+		oc, cached = memo[string(key)]
+		memoMu.Unlock()
+	}
+	if !cached {
+		for i := 0; i < tries; i++ {
+			oc = runChild(c, rounds)
+			if oc.err != nil {
+				break
+			}
+		}
+		if oc.err != nil || sawFailure.Load() {
+			memoMu.Lock()
+			memo[string(key)] = oc
+			memoMu.Unlock()
 		}
 	}
 	label(c, o, oc.res)
@@ -437,6 +459,9 @@ func checkWith(c Case, o *vf.Obs, r *vf.Run) error {
 	}
 	if oc.res != nil {
 		o.Note("child_result", oc.res)
+	}
+	if strings.HasPrefix(oc.err.Error(), "harness:") {
+		return oc.err
 	}
 	if oc.finding != "" {
 		o.Note("finding", oc.finding)
